@@ -228,7 +228,10 @@ std::string runCase(const Case& k, vh::Stats& st, bool& inconclusive, std::strin
             if (s.pace == 1) e.waitPrefix("info ", 300);
             else if (s.pace == 2) { int want = s.paceArg; e.waitFor([&](const std::string& l) { uci::Info inf; return l.rfind("bestmove", 0) == 0 || (uci::parseInfo(l, inf) && inf.depth >= want); }, 1500); }
             else if (s.pace == 3) e.sleepMs(s.paceArg);
-            if (s.ponder && (idx + s.paceArg) % 2 == 0) { e.send("ponderhit"); if (!s.hasLimit || s.infinite) { e.sleepMs(20); e.send("stop"); } }
+            // after ponderhit only *time* limits (movetime / clock) end the search by themselves: the engine starts a
+            // ponder search without depth/node limits and ponderhit re-installs the time limits only
+            bool timeLimited = s.go.find("movetime") != std::string::npos || s.go.find("wtime") != std::string::npos;
+            if (s.ponder && (idx + s.paceArg) % 2 == 0) { e.send("ponderhit"); if (!timeLimited || s.infinite) { e.sleepMs(20); e.send("stop"); } }
             else e.send("stop");
         }
         e.scanPos = from;
@@ -250,6 +253,7 @@ std::string runCase(const Case& k, vh::Stats& st, bool& inconclusive, std::strin
         else { std::string se = e.stderrText(); if (se.find("Sanitizer") != std::string::npos || se.find("runtime error:") != std::string::npos) err = "sanitizer report: " + se.substr(0, 800); }
     }
     if (!err.empty()) { Value t = e.transcript(200); transcript = vj::dump(t); }
+    if (inconclusive && getenv("C03_DEBUG")) { fprintf(stderr, "INCONCLUSIVE %s\n%s\n", vj::dump(toJson(k)).c_str(), vj::dump(e.transcript(30)).c_str()); }
     e.kill();
     return err;
 }
